@@ -59,6 +59,11 @@ def run_case(case):
         out["outside"] = engine.outside_domain({"py_events": py.get("events", []), "live": py.get("live", []), "san_reports": f["san_reports"]})
         out["diverged"] = bool(d)
         out["divergence"] = d
+        if gate and idx % (40 if tier() == "quick" else 20) == 0:
+            pb = fw.build_plain(t["cpp"], wd)
+            if pb["ok"]:
+                vg = fw.run_valgrind(pb["binary"], wd, passes=3)
+                out["valgrind"] = {"status": vg["status"], "errors": vg["errors"], "log": vg.get("log", "")[-600:]}
         if gate:
             g = fw.run(b["binary"], wd, passes=PASSES, gate=True)
             out["gate_status"] = g["status"]
@@ -141,6 +146,12 @@ def main() -> int:
             rep.count("gate_runs")
             if res["gate_status"] != "ok" and not res["reports"]:
                 report(f"gate run (halt_on_error) ended with {res['gate_status']} {res.get('gate_reports')}", "gate:" + res["gate_status"])
+        if "valgrind" in res:
+            rep.count("valgrind_memcheck_runs")
+            if res["valgrind"]["status"] == "watchdog":
+                rep.count("valgrind_watchdog")
+            elif res["valgrind"]["errors"]:
+                report(f"valgrind memcheck: {res['valgrind']['errors']}", "valgrind:" + res["valgrind"]["errors"][0][:40])
         lk = leak(res["heap"], res["live"])
         if lk:
             report(f"firmware heap grows by {lk['growth_per_pass']} bytes per loop() pass while Python's live data is constant (heap {lk['heap']})", "leak")
